@@ -31,7 +31,8 @@ Inductive val :=
 | VCls (n : nat)             (* a class object *)
 | VOpaque                    (* something the wrapper computed itself (datetime, timedelta ...) *)
 | VPending (c : callee) (a : list val) (k : list (string * val))   (* coroutine object of c( *a, **k ), not awaited *)
-| VWrapperCoro (a : list val) (k : list (string * val)).          (* coroutine object of an async wrapper called with ( *a, **k ) *)
+| VWrapperCoro (a : list val) (k : list (string * val))           (* coroutine object of an async wrapper called with ( *a, **k ) *)
+| VCallable (c : callee).    (* the callable object itself (only ever handed to repr) *)
 
 Inductive xid := XId (n : nat) | XFresh (site : nat).   (* identity of an exception instance *)
 
@@ -109,6 +110,8 @@ Inductive rk_action := RkRenamed | RkSame | RkDrop.
    values (repr / str of every positional argument, of every keyword value, of a local such as the result).
    FOwn: something of the wrapper's own that cannot fail (datetime.now(), wrapper.num_calls, a timedelta) *)
 Inductive fitem := FOwn | FName (c : callee) | FVal (e : wexpr) | FArgs | FKwargs.
+(* FName c is `c.__name__ if hasattr(c, "__name__") else repr(c)`: repr of the callable is evaluated ONLY when it has
+   no name (functools.partial, callable objects); repr of a partial or of a bound method shows its receiver *)
 
 Inductive wstmt :=
 | WSkip
@@ -292,10 +295,13 @@ Section Exec.
       end
     end.
 
+  Definition fmt_name (c : callee) (s : st Sigma) : fres * st Sigma :=
+    if c_named (cx_callee cx c) then (FmOk, s) else fmt_vals [VCallable c] s.
+
   Definition fmt_item (i : fitem) (en : env) (s : st Sigma) : fres * st Sigma :=
     match i with
     | FOwn => (FmOk, s)
-    | FName c => if c_named (cx_callee cx c) then (FmOk, s) else (FmExc AttributeErrorC (XFresh 7), s)
+    | FName c => fmt_name c s
     | FVal e => match eval_expr e en with
                 | Some v => fmt_vals [v] s
                 | None => (FmExc UnboundLocalErrorC (XFresh 3), s)
@@ -431,6 +437,7 @@ Arguments cx_self {Sigma} _.
 Arguments cx_repr {Sigma} _.
 Arguments Build_ctx {Sigma} _ _ _ _ _ _ _ _ _.
 Arguments fmt_vals {Sigma} _ _ _.
+Arguments fmt_name {Sigma} _ _ _.
 Arguments fmt_item {Sigma} _ _ _ _ _ _.
 Arguments fmt_items {Sigma} _ _ _ _ _ _.
 Arguments after_fmt {Sigma} _ _ _ _ _ _ _.
